@@ -174,6 +174,9 @@ def harmlessUntil (deadline : Nat) : Evt → Prop
   | .msg _ m => dispatch m ≠ .clear
   | .sweep now => now < deadline
 
+instance (deadline : Nat) (e : Evt) : Decidable (harmlessUntil deadline e) := by
+  cases e <;> unfold harmlessUntil <;> infer_instance
+
 /-- **The packet path forwards the registrant's flows for as long as the station accepts them.**  After
 the announcement is handled at `t0` — whatever the map held — and after any further sequence of station
 messages that are not a clear and of sweeps (`drop_stale_sessions`) running at instants at which the
@@ -289,6 +292,54 @@ theorem transport_protos_acceptable :
 theorem announced_operations :
     CJ.Gen.C10.announcedNewOp = opNew ∧ CJ.Gen.C10.announcedUpdateOp = opUpdate := by decide
 
+/-- every transport the station's main package enables (`enabledTransports` in `cmd/application`) has its
+protocol in the dumped table, and it is TCP or UDP: "every transport" of the harness and of
+`transport_protos_acceptable` is the set the station really runs with. -/
+theorem enabled_transports_covered :
+    ∀ t ∈ CJ.Gen.C10.enabledTransports, ∃ p ∈ CJ.Gen.C10.transportProtos, p.1 = t ∧ (p.2 = protoTcp ∨ p.2 = protoUdp) := by
+  decide
+
+/-! ### the two protobuf stacks agree on the wire -/
+
+/-- **Field tags and kinds match**: the message the station marshals (Go descriptor of `StationToDetector`)
+and the `merge_from` of the detector's generated `src/signalling.rs` use the same tag (field number and
+wire type), name and kind for every field, and neither side has a field the other lacks. -/
+theorem wire_tags_match : CJ.Gen.C10.goWire = CJ.Gen.C10.rustWire := by decide
+
+/-- **Enum values match**: every value of `IPProto` and `StationOperations` has the same number in the Go
+descriptors as in the detector's `from_i32` tables. -/
+theorem wire_enums_match : CJ.Gen.C10.goEnums = CJ.Gen.C10.rustEnums := by decide
+
+/-- the numbers the model uses for the operations and protocols are those of the generated code on both
+sides, and the detector's getters fall back to `Unk` / `Unknown` (what `convert` / `dispatch` assume for
+absent and unknown values) -/
+theorem model_enum_values_of_code :
+    ("StationOperations", "new", opNew) ∈ CJ.Gen.C10.rustEnums ∧
+    ("StationOperations", "update", opUpdate) ∈ CJ.Gen.C10.rustEnums ∧
+    ("StationOperations", "clear", opClear) ∈ CJ.Gen.C10.rustEnums ∧
+    ("IPProto", "tcp", protoTcp) ∈ CJ.Gen.C10.rustEnums ∧
+    ("IPProto", "udp", protoUdp) ∈ CJ.Gen.C10.rustEnums ∧
+    (∀ e ∈ CJ.Gen.C10.rustEnums, e.1 = "IPProto" → e.2.2 = protoTcp ∨ e.2.2 = protoUdp ∨ e.2.1 = "unk") ∧
+    (∀ e ∈ CJ.Gen.C10.rustEnums, e.1 = "StationOperations" →
+      e.2.2 = opNew ∨ e.2.2 = opUpdate ∨ e.2.2 = opClear ∨ e.2.1 = "unknown") ∧
+    CJ.Gen.C10.rustEnumDefaults = [("IPProto", "unk"), ("StationOperations", "unknown")] := by
+  decide
+
+/-! ### the shutdown path of the station's `main` -/
+
+/-- What `main` publishes on its way out, from the extracted facts: the signal loop ends, `main` cancels,
+waits and returns, and the deferred `Cleanup()` publishes the clear message — provided the `defer` is an
+unconditional statement placed before the station starts working on registrations and nothing after
+that start ends the process without unwinding (`os.Exit`, `*.Fatal*`, `runtime.Goexit`, `panic`). -/
+def shutdownMessage : Option S2D :=
+  if CJ.Gen.C10.mainDefersCleanup = true ∧ CJ.Gen.C10.mainExitsAfterStart = [] then some CJ.Gen.C10.clearMsg else none
+
+/-- **A station that shuts down clears the detector**: `main` reaches the deferred `Cleanup`, and the
+message it publishes empties the detector's map whatever it held. -/
+theorem shutdown_clears_detector (now : Nat) (m : Map) :
+    ∃ msg, shutdownMessage = some msg ∧ handle now m msg = [] := by
+  refine ⟨CJ.Gen.C10.clearMsg, by decide, clear_of_code_acted_on now m⟩
+
 /-! ### C07 ∘ C10 -/
 
 /-- the announcement the station makes for a registration that ingest built (New when it is validated,
@@ -317,5 +368,21 @@ example : ¬ ∃ s, convert (mkS2D { reg4 with registrant := reg6.phantom } 1 op
   rw [accepted_iff]; decide
 example : Map.get? (handle 0 [(.ext "left over", 99)] (announce reg4 .fresh)) (.ext "left over") = some 99 := by decide
 example : handle 7 (handle 0 [(.ext "left over", 99)] (announce reg4 .fresh)) mkClear = [] := (clear_acted_on _ _).2
+
+/-! the packet path: the registrant's flow is forwarded until the station's own expiry, through an Update,
+an unrelated announcement and sweeps; another source is not forwarded (IPv4 tags carry the client); after
+the lifetime the sweep drops the session -/
+def flow4 (src : IpAddr) : Flow := { src := src, dst := .v4 [192, 122, 190, 5], dstPort := 443, proto := 6 }
+def evs4 : List Evt :=
+  [.sweep 5, .msg 7 (announce reg6 .fresh), .sweep (100 + tenMinutesNs - 1), .msg 9 (mkS2D reg4 3 opNew)]
+example : ∀ e ∈ evs4, harmlessUntil (100 + stationLifetime .fresh) e := by decide
+example : isTracked (run (handle 100 [(.ext "left over", 99)] (announce reg4 .fresh)) evs4) (flow4 (.v4 [203, 0, 113, 5])) = true := by decide
+example : isTracked (run (handle 100 [] (announce reg4 .fresh)) evs4) (flow4 (.v4 [203, 0, 113, 6])) = false := by decide
+example : isTracked (run (handle 100 [] (announce reg4 .fresh)) [.sweep (100 + tenMinutesNs)]) (flow4 (.v4 [203, 0, 113, 5])) = false := by decide
+example : isTracked (run (handle 100 [] (announce reg4 .fresh)) [.msg 200 (announce reg4 .used), .sweep (200 + sixHoursNs - 1)])
+    (flow4 (.v4 [203, 0, 113, 5])) = true := by decide
+/-- an IPv6 phantom is forwarded from any source -/
+example : isTracked (handle 0 [] (announce reg6 .used))
+    { src := .v6 (List.replicate 16 7), dst := .v6 reg6.phantom, dstPort := 50123, proto := 17 } = true := by decide
 
 end CJ.Props.C10
